@@ -320,7 +320,8 @@ EXTRA = {
            "reach R1 and R2 adapters alike); adapters of realistic length (30-110 nt) are drawn and an absolute error "
            "value E is probed behaviourally (the adapter with E substitutions must be found).",
     "C19": "Compression levels, --fasta on standard output next to redirect files without a recognised extension, and "
-           "real-process runs under the spawn and forkserver start methods are included.",
+           "real-process runs under the spawn and forkserver start methods are included; names with upper- or mixed-case "
+           "extensions must get the same format for every compression suffix and core count.",
     "C20": "Identical named adapters for R1 and R2 are drawn; the text report's per-adapter totals and its allowed-errors "
            "lines are compared with JSON and with int(L x rate) up to the number of non-N bases, where the table must end.",
 }
